@@ -25,7 +25,9 @@ PROPS = {
         gates=["obs.ok", "obs.panic", "obs.err.EInvalidJump", "obs.err.EDuplicateName", "obs.err.EEmptyVariable",
                "obs.err.ERecursionLimitReached", "card.closure.nested", "card.foreach", "card.repeat", "card.while",
                "card.array", "import.super", "import.module", "import.std", "main.not_first", "module.submodules",
-               "str.len>252", "str.unicode", "disasm.compared", "huge.locals"],
+               "str.len>252", "str.unicode", "disasm.compared", "globals.17+", "corpus.a23", "corpus.a24", "corpus.huge_upvalues",
+               "corpus.globals17", "obs.err.ETooManyLocals", "obs.err.EBadImport", "obs.err.EAmbigousImport", "obs.err.ENoMain",
+               "obs.err.EDuplicateModule", "obs.err.EBadFunctionName"],
         rule="random modules (all 43 card kinds, nesting depth <= 4 (6), 0-4 functions per module, submodule trees of "
              "depth <= 3 with function / module / std / super imports, closures with upvalues, globals and locals, "
              "string literals up to 1000 bytes, planted faults: bad names, bad imports, empty variables, missing main, "
@@ -42,8 +44,8 @@ PROPS = {
             "labels / variables / trace are compared as key-sorted association lists; slot order of the hash tables is not modelled"],
         assumptions=[
             "function names are ASCII (is_name_valid uses the Unicode-aware char::is_alphanumeric); other cases are reported as code 3",
-            "no more than 16 distinct globals per program unless VERIF_C10_MANY_GLOBALS=1 (HandleTable::entry does not "
-            "terminate on the 17th, A-5: the harness cannot observe a hang other than through its watchdog)",
+            "programs with more than 16 distinct globals are generated unless VERIF_C10_MANY_GLOBALS=0 (before the fix of "
+            "HandleTable::entry, A-5, the 17th global made compile hang; a hang is observed through the harness watchdog, exit code 42)",
             "bytecode shorter than 2^31 bytes, fewer than 2^32 cards per function",
         ],
     ),
